@@ -73,11 +73,28 @@ def model():
     return gs.DictInterface(lambda s: jnp.sum(Yj * (Xj @ s["beta"]) - jnp.exp(Xj @ s["beta"])) - 0.5 * jnp.sum(s["beta"] ** 2) / TAU2)
 
 
+def model_two_keys():
+    """the same model with the coefficient vector split into two scalar parameters 'a' (first coefficient) and 'b' (second)"""
+    Xj, Yj = jnp.asarray(X, jnp.float32), jnp.asarray(Yc, jnp.float32)
+
+    def lp(s):
+        beta = jnp.stack([s["a"], s["b"]])
+        return jnp.sum(Yj * (Xj @ beta) - jnp.exp(Xj @ beta)) - 0.5 * jnp.sum(beta ** 2) / TAU2
+    return gs.DictInterface(lp)
+
+
 def kernel_case(col, kind, seed, n_tr):
     m = model()
     Xj = jnp.asarray(X, jnp.float32)
-    step = {"iwls": 0.9, "iwls_user": 0.9, "rw": 0.4, "mh": 0.4}[kind]
-    if kind == "iwls":
+    step = {"iwls": 0.9, "iwls_user": 0.9, "rw": 0.4, "mh": 0.4, "iwls_unsorted_keys": 0.9, "rw_unsorted_keys": 0.4}[kind]
+    two = kind.endswith("unsorted_keys")
+    if kind == "iwls_unsorted_keys":
+        m = model_two_keys()
+        k = gs.IWLSKernel(["b", "a"], initial_step_size=step)  # position keys listed in NON-alphabetical order
+    elif kind == "rw_unsorted_keys":
+        m = model_two_keys()
+        k = gs.RWKernel(["b", "a"], initial_step_size=step)
+    elif kind == "iwls":
         k = gs.IWLSKernel(["beta"], initial_step_size=step)
     elif kind == "iwls_user":
         k = gs.IWLSKernel(["beta"], initial_step_size=step, chol_info_fn=lambda st: jnp.linalg.cholesky(Xj.T @ (jnp.exp(Xj @ st["beta"])[:, None] * Xj) + jnp.eye(2) / TAU2))
@@ -95,7 +112,8 @@ def kernel_case(col, kind, seed, n_tr):
         k = gs.MHKernel(["beta"], prop, initial_step_size=step)
     k.set_model(m)
     key = jax.random.PRNGKey(seed)
-    ms = {"beta": jnp.array([0.3, 0.6], jnp.float32)}
+    ms = {"beta": jnp.array([0.3, 0.6], jnp.float32)} if not two else {"a": jnp.float32(0.3), "b": jnp.float32(0.6)}
+    vec = (lambda st: np.asarray(st["beta"], np.float64)) if not two else (lambda st: np.array([float(st["a"]), float(st["b"])], np.float64))
     ks = k.init_state(key, ms)
     ep = EpochConfig(EpochType.POSTERIOR, n_tr, 1, None).to_state(1, 0)
     tr = jax.jit(k.transition)
@@ -103,13 +121,13 @@ def kernel_case(col, kind, seed, n_tr):
     for _ in range(n_tr):
         key, sub = jax.random.split(key)
         out = tr(sub, ks, ms, ep)
-        x, y = np.asarray(ms["beta"], np.float64), np.asarray(out.model_state["beta"], np.float64)
+        x, y = vec(ms), vec(out.model_state)
         p = float(out.info.acceptance_prob)
         if not np.array_equal(x, y):
             n_acc += 1
             if kind.startswith("iwls"):
                 lr = logpi(y) - logpi(x) + logq(x, y, step) - logq(y, x, step)
-            elif kind == "rw":
+            elif kind.startswith("rw"):
                 lr = logpi(y) - logpi(x)
             else:
                 d = y - x
@@ -127,12 +145,44 @@ def kernel_case(col, kind, seed, n_tr):
         col.add(None)
 
 
+def proposal_distribution_case(col, user_info, n=4000):
+    """the realised IWLS proposals themselves (not only the reported probability): from a fixed point of a correlated bivariate Gaussian target
+    (precision P = [[1, .95], [.95, 1]], step size 0.05, acceptance ~ 1) the whitened steps (x' - mu)/s over many keys must have covariance F^-1"""
+    P = jnp.asarray([[1.0, 0.95], [0.95, 1.0]], jnp.float32)
+    s_ = 0.05
+    if user_info:
+        model = gs.DictInterface(lambda st: -0.5 * jnp.stack([st["a"], st["b"]]) @ P @ jnp.stack([st["a"], st["b"]]))
+        k = gs.IWLSKernel(["a", "b"], chol_info_fn=lambda st: jnp.linalg.cholesky(P), initial_step_size=s_)
+        ms = {"a": jnp.float32(0.3), "b": jnp.float32(-0.2)}
+        flat = lambda st: jnp.stack([st["a"], st["b"]])  # noqa: E731
+    else:
+        model = gs.DictInterface(lambda st: -0.5 * st["x"] @ P @ st["x"])
+        k = gs.IWLSKernel(["x"], initial_step_size=s_)
+        ms = {"x": jnp.asarray([0.3, -0.2], jnp.float32)}
+        flat = lambda st: st["x"]  # noqa: E731
+    k.set_model(model)
+    ep = EpochConfig(EpochType.POSTERIOR, 10, 1, None).to_state(1, 0)
+    ks0 = k.init_state(jax.random.PRNGKey(0), ms)
+    keys = jax.random.split(jax.random.PRNGKey(11), n)
+    out = jax.jit(jax.vmap(lambda kk: k.transition(kk, ks0, ms, ep)))(keys)
+    moved = np.asarray(out.info.position_moved).astype(bool)
+    x0 = np.asarray(flat(ms), np.float64)
+    Pn = np.asarray(P, np.float64)
+    mu = x0 + (s_**2 / 2) * np.linalg.solve(Pn, -Pn @ x0)
+    xs = np.asarray(jax.vmap(flat)(out.model_state), np.float64)[moved]
+    emp = np.cov(((xs - mu) / s_).T)
+    want = np.linalg.inv(Pn)
+    ok = moved.mean() > 0.9 and np.allclose(emp, want, atol=0.12 * np.abs(want).max())
+    col.add(None if ok else {"sig": "native::iwls::proposal_covariance", "what": f"covariance of the whitened realised proposals {emp.round(2).tolist()} (accepted share {moved.mean():.2f}), "
+                             f"the proposal density used in the correction has s^2 F^-1 with F^-1 = {want.round(2).tolist()}", "input": {"user_chol_info_fn": user_info, "transitions": n, "step_size": s_}})
+
+
 def special_corrections(col):
     """user proposals whose declared log-correction is -inf (the move cannot be reversed: q(x|x') = 0), +inf, NaN or finite: the reported
     acceptance probability must be min(1, exp(log-density difference + correction)) - 0 for -inf, rejection with code 90 for NaN"""
     from rtc.c05 import kernel_cases
     sub = util.Collector()
-    kernel_cases(sub, corrections=(float("-inf"), float("nan"), float("inf"), 0.7, -0.7))
+    kernel_cases(sub, corrections=(float("-inf"), float("nan"), float("inf"), 0.7, -0.7), light=True)
     for v in sub.violations:
         if "mh_kernel" in v["sig"]:
             col.add({**v, "sig": "native::mh_correction::special_values"})
@@ -154,15 +204,20 @@ def bounded(tier, seed):
     n_la = 40 if tier == "quick" else 1500
     la_cases(col, rng, n_la)
     n_tr = 25 if tier == "quick" else 300
-    for kind in ("iwls", "iwls_user", "rw", "mh"):
+    for kind in ("iwls", "iwls_user", "rw", "mh", "iwls_unsorted_keys", "rw_unsorted_keys"):
         kernel_case(col, kind, seed + 3, n_tr)
     special_corrections(col)
+    for ui in (False, True):
+        try:
+            proposal_distribution_case(col, ui)
+        except Exception as e:
+            col.add({"sig": f"native::iwls::exception::{type(e).__name__}", "what": str(e)[:200], "input": {"scenario": "proposal covariance", "user_chol_info_fn": ui}})
     return {
         "evaluations": col.evals, "distinct_nontrivial": n_la + 4,
         "rule": (f"BOUNDED: iwls_utils on {n_la} seeded SPD precision matrices of dimension 1-4 against numpy closed forms (solve, log-density, sample identity "
-                 f"L'(x-m)=z); {n_tr} real jitted transitions each of IWLS (autodiff Hessian), IWLS (user chol_info_fn = exact Fisher information, position dependent), RW and MH "
+                 f"L'(x-m)=z); {n_tr} real jitted transitions each of IWLS (autodiff Hessian), IWLS (user chol_info_fn = exact Fisher information, position dependent), RW and MH, IWLS and RW over two scalar keys listed in non-alphabetical order "
                  "(asymmetric user proposal with its analytic correction) on a 2-parameter Poisson regression: for every accepted move the reported acceptance probability is "
-                 f"compared with the analytic MH ratio in float64 (tolerance 5e-3); MH kernel with declared corrections -inf / +inf / NaN / +-0.7. seed={seed}"),
+                 f"compared with the analytic MH ratio in float64 (tolerance 5e-3); covariance of 4000 realised IWLS proposals on a correlated bivariate Gaussian target (autodiff Hessian and user chol_info_fn) against F^-1 (statistical, tolerance 12 % of the largest entry); MH kernel with declared corrections -inf / +inf / NaN / +-0.7. seed={seed}"),
         "samples": [{"kernel": "iwls_user", "step_size": 0.9}],
         "exhaustive": False, "violations": col.violations,
     }
